@@ -1,0 +1,1 @@
+//! Verification hooks: `clock` (thin pass-through wrappers; feature `verif-hooks` only).
